@@ -10,6 +10,8 @@ Spec kinds
   densities rho = 10**exponent, exponent in [log10 0.5, 3].  "flat": a single column passed as 1-d arrays.
 * {"kind": "chain", "ncomp": c, "nlead": l, "a": [...], "B": [...upper triangle...], "cols": [{"x": [...], "yl": [...]}],
    "flat": bool}:  f(z) = a.z + 1/2 z^T B z,  z = (yl, x / sum x).
+* {"kind": "chainhist", ...as chain..., "order": "C"|"F", "calls": [{"form": "2d"|"1d-view"|"1d-held", "col": j, "x"?: [...]}, ...]}:
+  history of calls that reuse the same gradient arrays (2-d array, its column views, held 1-d copies).
 * {"kind": "norm", "rows": [[...], ...], "order": "C"|"F"}.
 """
 from __future__ import annotations
@@ -23,7 +25,7 @@ from ..core import require, require_close, require_equal
 
 ID = "C42"
 RULE = (
-    "Hypothesis draws one of three cases. sat: 2..5 phases, 1..4 columns (or a single column as 1-d arrays); per column "
+    "Hypothesis draws one of four cases. sat: 2..5 phases, 1..4 columns (or a single column as 1-d arrays); per column "
     "phase fractions on the simplex of class generic (normalised powers of uniforms, concentration 0.3/1/5), vanished "
     "(1..n-2 phases exactly 0), saturated (unit vector), threshold (y_max = 1-d, d in 1e-12..1e-7 around the eps=1e-10 "
     "switch) or tiny (one y_j = d), densities 10^[log10 0.5, 3]; oracle: s >= -1e-12, |sum s - 1| <= 1e-8 + "
@@ -31,6 +33,10 @@ RULE = (
     "vanished (sum of y_j <= eps, or 1 - y_max for a saturated column; 0 in the generic / exactly-zero classes). "
     "chain: random quadratic f of 0..2 leading arguments and 2..5 normalised fractions; oracle: rows of the leading "
     "arguments unchanged exactly, fraction rows equal the complex-step derivative of x -> f(y, x/sum x) (1e-9 x scale). "
+    "chainhist: the same gradient data is reused over 2..5 calls in sequence - the 2-d array in the vectorised form, "
+    "column views of that array and held 1-d copies in the 1-d form, also at other points x; every result (and every "
+    "earlier result once more after the later calls) must equal the derivative of the composed function computed from "
+    "copies of the inputs taken before the first call - modification of an input is judged by these consequences only. "
     "norm: 1..5 x 1..5 non-negative arrays (C or F order) with a positive entry per row; rows equal x_i/sum x_i (1e-13) "
     "and sum to 1 (1e-12). Non-trivial = sat column with >= 2 present phases and distinct densities / chain with a "
     "non-zero B / norm with >= 2 columns; distinct = hash of spec."
@@ -53,10 +59,11 @@ ASSUMPTIONS = [
     "normalize_rows: non-negative entries with at least one positive entry per row",
 ]
 REQUIRED = {
-    "sat": 0.3, "chain": 0.2, "norm": 0.1,
-    "sat-2phase": 0.05, "sat-3+phase": 0.15, "col-generic": 0.1, "col-vanished": 0.04, "col-saturated": 0.05,
+    "sat": 0.25, "chain": 0.08, "norm": 0.08, "chainrule-history": 0.15, "chainrule-1d-reuse": 0.08,
+    "hist-mixed-forms": 0.04,
+    "sat-2phase": 0.05, "sat-3+phase": 0.15, "col-generic": 0.1, "col-vanished": 0.02, "col-saturated": 0.05,
     "col-threshold": 0.04, "col-tiny": 0.04, "sat-flat": 0.03, "sat-vectorised": 0.1,
-    "chain-lead0": 0.03, "chain-lead1+": 0.06, "chain-flat": 0.03, "chain-vectorised": 0.06,
+    "chain-lead0": 0.015, "chain-lead1+": 0.03, "chain-flat": 0.01, "chain-vectorised": 0.03,
     "norm-F": 0.03, "norm-C": 0.03,
 }
 
@@ -126,8 +133,29 @@ def _norm(draw):
     return {"kind": "norm", "rows": rows, "order": draw(st.sampled_from(["C", "F"]))}
 
 
+@st.composite
+def _chainhist(draw):
+    """A gradient array that lives on: the same 2-d array, column views of it and held 1-d copies are passed to
+    several chain-rule calls in sequence (1-d and 2-d forms mixed, also at other points x)."""
+    base = draw(_chain())
+    ncol, c = len(base["cols"]), base["ncomp"]
+    calls = []
+    for _ in range(draw(st.integers(2, 5))):
+        form = draw(st.sampled_from(["2d", "1d-view", "1d-view", "1d-held", "1d-held"]))
+        call = {"form": form, "col": draw(st.integers(0, ncol - 1))}
+        if form == "1d-held" and draw(st.booleans()):
+            x = [draw(st.one_of(st.just(0.0), st.floats(0.01, 1.5, allow_nan=False))) for _ in range(c)]
+            if sum(x) < 0.05:
+                x[draw(st.integers(0, c - 1))] = draw(st.floats(0.05, 1.5, allow_nan=False))
+            call["x"] = x
+        calls.append(call)
+    base.update(kind="chainhist", calls=calls, order=draw(st.sampled_from(["C", "F"])))
+    base.pop("flat", None)
+    return base
+
+
 def strategy(tier):
-    return st.one_of(_sat(), _sat(), _chain(), _chain(), _norm())
+    return st.one_of(_sat(), _sat(), _chain(), _chainhist(), _chainhist(), _norm())
 
 
 # ----------------------------------------------------------------------------- helpers
@@ -203,6 +231,8 @@ def check(s):
         return _check_sat(s)
     if s["kind"] == "chain":
         return _check_chain(s)
+    if s["kind"] == "chainhist":
+        return _check_chainhist(s)
     return _check_norm(s)
 
 
@@ -295,6 +325,88 @@ def _check_chain(s):
         require_close(out[nl:, k], exp, "chain-rule", rtol=1e-9, atol=1e-30, scale=scale,
                       what=f"column {k}: chain rule vs complex-step derivative of f(y, x/sum x); x={x.tolist()}")
     return {"labels": labels, "nontrivial": bool(np.any(Bm != 0.0))}
+
+
+def _linearised_chainrule(g0, nl, x):
+    """Gradient w.r.t. (leading arguments, x) of the function x -> g0 . (y, x / sum x): the leading entries of g0,
+    and for the fractions the complex-step derivative (no cancellation) of the linear form composed with the
+    normalisation.  For g0 = grad f(z(x)) this is the derivative of the composed function f(y, x/sum x) at x."""
+    c = x.size
+    out = np.array(g0, dtype=float, copy=True)
+    h = 1e-30
+    for j in range(c):
+        xc = x.astype(complex)
+        xc[j] += 1j * h
+        out[nl + j] = (g0[nl:].astype(complex) @ (xc / xc.sum())).imag / h
+    return out
+
+
+def _check_chainhist(s):
+    from porepy.compositional.utils import chainrule_fractional_derivatives
+
+    c, nl = s["ncomp"], s["nlead"]
+    m = c + nl
+    a = np.array(s["a"], dtype=float)
+    Bm = np.zeros((m, m))
+    Bm[np.triu_indices(m)] = s["B"]
+    Bm = Bm + np.triu(Bm, 1).T
+    ncol = len(s["cols"])
+    X0 = np.array([col["x"] for col in s["cols"]], dtype=float).T  # c x ncol
+    YL = np.array([col["yl"] for col in s["cols"]], dtype=float).T.reshape(nl, ncol)
+    G0 = np.zeros((m, ncol))
+    for k in range(ncol):
+        G0[:, k] = a + Bm @ np.concatenate([YL[:, k], X0[:, k] / X0[:, k].sum()])
+    # pristine copies above (G0, X0) are the oracle's inputs; below the arrays the "user" keeps working with
+    G = np.array(G0, order=s["order"], copy=True)
+    X = np.array(X0, order=s["order"], copy=True)
+    held = {}
+    gmag = float(np.max(np.abs(a))) + float(np.max(np.abs(Bm))) * m * max(1.0, float(np.max(np.abs(YL))) if nl else 1.0)
+
+    def tol_scale(x):
+        S = float(x.sum())
+        return gmag * c * (1.0 / S + float(x.max()) / S ** 2) + gmag
+
+    results = []  # (what, array returned by the library, expected, scale)
+    uses = {}
+    for n, call in enumerate(s["calls"]):
+        form, j = call["form"], call["col"]
+        if form == "2d":
+            out = chainrule_fractional_derivatives(G, X)
+            require(out.shape == (m, ncol), "hist-shape", f"call {n}: {out.shape}")
+            exp = np.stack([_linearised_chainrule(G0[:, k], nl, X0[:, k]) for k in range(ncol)], axis=1)
+            sc = max(tol_scale(X0[:, k]) for k in range(ncol))
+            for k in range(ncol):
+                uses[("G", k)] = uses.get(("G", k), 0) + 1
+        elif form == "1d-view":
+            out = chainrule_fractional_derivatives(G[:, j], X[:, j])
+            require(out.shape == (m,), "hist-shape", f"call {n}: {out.shape}")
+            exp = _linearised_chainrule(G0[:, j], nl, X0[:, j])
+            sc = tol_scale(X0[:, j])
+            uses[("G", j)] = uses.get(("G", j), 0) + 1
+        else:
+            if j not in held:
+                held[j] = G0[:, j].copy()
+            x = np.array(call["x"], dtype=float) if "x" in call else X0[:, j].copy()
+            out = chainrule_fractional_derivatives(held[j], x.copy())
+            require(out.shape == (m,), "hist-shape", f"call {n}: {out.shape}")
+            exp = _linearised_chainrule(G0[:, j], nl, x)
+            sc = tol_scale(x)
+            uses[("held", j)] = uses.get(("held", j), 0) + 1
+        what = f"call {n} ({form}, column {j}) of {[c_['form'] for c_ in s['calls']]}"
+        require_close(out, exp, "hist-chain-rule", rtol=1e-9, atol=1e-30, scale=sc,
+                      what=what + ": result vs derivative of the composed function (inputs as before the first call)")
+        results.append((what, out, exp, sc))
+    # results handed out earlier must still be right after the later calls
+    for what, out, exp, sc in results:
+        require_close(out, exp, "hist-result-overwritten", rtol=1e-9, atol=1e-30, scale=sc,
+                      what=what + ": result changed after later calls")
+    labels = ["chainrule-history", f"hist-order-{s['order']}"]
+    if any(v >= 2 for v in uses.values()):
+        labels.append("chainrule-1d-reuse" if any(cl["form"] != "2d" for cl in s["calls"]) else "chainrule-2d-reuse")
+    forms = {cl["form"] for cl in s["calls"]}
+    if "2d" in forms and len(forms) > 1:
+        labels.append("hist-mixed-forms")
+    return {"labels": labels, "nontrivial": True}
 
 
 def _check_norm(s):
